@@ -1004,7 +1004,7 @@ func c07Run(c *c07Case) {
 }
 
 // ---- generators
-var c07Subs = []string{"a", "b", "c"}
+var c07Subs = []string{"a", "b", "c", ""} // the empty id is legal
 
 func c07Universe(nev int) common.Universe {
 	u := common.Small
